@@ -42,7 +42,7 @@ Proof. vm_compute. reflexivity. Qed.
 
 (** For EVERY scheduler (an arbitrary state machine [filter]), program and state: in one
     [step_rules_with_scheduler] the scheduler's [filter_matches] for rule k is offered exactly the
-    rule's residual vector followed — when the scheduler had asked for a new search — by one tuple
+    rule's residual vector, every id read through the current union-find ([canon_t]), followed — when the scheduler had asked for a new search — by one tuple
     (the values of the head's variables) per match of the rule body ([Rules.match_body], the
     specification matcher, on the database as it is when the step starts). *)
 Theorem c18_offered_all : forall (Sst : Type)
@@ -53,9 +53,10 @@ Theorem c18_offered_all : forall (Sst : Type)
   forall k r, nth_error rules k = Some r ->
     let ri := nth k (ss_infos x) info0 in
     nth_error offs k =
-      Some (ri_res ri ++ (if ri_seek ri
-                          then map (proj (head_vars r)) (match_body (ss_db x) (rbody r) [[]])
-                          else [])).
+      Some (map (canon_t (ss_db x)) (ri_res ri)
+            ++ (if ri_seek ri
+                then map (proj (head_vars r)) (match_body (ss_db x) (rbody r) [[]])
+                else [])).
 Proof. exact offered_all. Qed.
 Print Assumptions c18_offered_all.
 
@@ -68,7 +69,8 @@ Print Assumptions c18_offered_not_subsumed.
 
 (** A match that was offered and not chosen is kept (the residual is a permutation of the
     unchosen offered tuples; [choose_all] keeps nothing), and WHATEVER happens to the database and
-    to the scheduler's state in between, the next step offers it again (followed by the new
+    to the scheduler's state in between, the next step offers it again — modulo the equalities
+    that hold then: each id replaced by its current representative — (followed by the new
     matches iff the scheduler asked for a search). *)
 Theorem c18_no_loss : forall (Sst : Type)
     (filter : Sst -> nat -> list tuple -> Sst * (bool * list nat * bool)) sg rules
@@ -86,7 +88,8 @@ Theorem c18_no_loss : forall (Sst : Type)
               (List.filter (fun i => negb (existsb (Nat.eqb i) chosen)) (seq 0 (length off))))) /\
     forall s2 st2 x2 e2 offs2,
       step Sst filter sg rules (mkSS s2 (ss_infos x1) st2) = Ok (x2, e2, offs2) ->
-      exists fr, nth_error offs2 k = Some (ri_res (nth k (ss_infos x1) info0) ++ fr) /\
+      exists fr, nth_error offs2 k
+                   = Some (map (canon_t s2) (ri_res (nth k (ss_infos x1) info0)) ++ fr) /\
                  (ri_seek (nth k (ss_infos x1) info0) = false -> fr = []).
 Proof. exact no_loss. Qed.
 Print Assumptions c18_no_loss.
@@ -105,60 +108,70 @@ Theorem c18_choose_all_eq_builtin : forall (Sst : Type) sg rules s (st : Sst) in
 Proof. exact choose_all_eq_builtin. Qed.
 Print Assumptions c18_choose_all_eq_builtin.
 
-(** "The database is canonical after every step" is FALSE (finding F7): the program
-    (datatype N (A) (B) (G N)) (relation Seen (N)) (rule ((= x (G y))) ((Seen y))) (A) (G (B)),
-    a scheduler that chooses nothing at its first call and everything afterwards, one step, then
-    (union (A) (B)), then one more step: every state up to there is canonical, both steps succeed,
-    and afterwards [Seen] holds a row keyed by B's displaced id — (Seen (A)) does not evaluate
-    although (Seen (B)) was derived and A = B. *)
-Theorem c18_canonical_after_step_refuted :
-  exists x1 o1 s1 x2 o2,
-    canonical (ss_db f7_x0) /\
-    step nat f7_filter f7_sg f7_rules f7_x0 = Ok (x1, None, o1) /\ canonical (ss_db x1) /\
-    exec f7_sg (ss_db x1) (CUnion (T 0 []) (T 1 [])) = Ok s1 /\ canonical s1 /\
-    step nat f7_filter f7_sg f7_rules (mkSS s1 (ss_infos x1) (ss_sched x1)) = Ok (x2, None, o2) /\
-    ~ canonical (ss_db x2) /\
-    eval s1 (T 0 []) = eval s1 (T 1 []) /\
-    eval (ss_db x2) (T 3 [T 0 []]) = None.
-Proof. exact canonical_after_step_refuted. Qed.
-Print Assumptions c18_canonical_after_step_refuted.
-
-(** ... and it is TRUE when every id held in the side vectors is still canonical when the step
-    runs, i.e. no union (by the user, or by the actions of an earlier step) displaced an id of a
-    held-back match between the step that offered it and the step that applies it — for every
-    scheduler, over the constructor fragment of the Egg core (the one [c04_inv_reachable]
-    covers): the step keeps the full well-formedness invariant, in particular canonicity. *)
-Theorem c18_canonical_after_step_partial : forall (Sst : Type)
+(** The database is canonical after every step, for EVERY scheduler and every content of the side
+    vectors (no assumption that held-back ids are still canonical: the step reads them through
+    the union-find first), over the constructor fragment of the Egg core (heads made of
+    expressions and unions over constructor tables — the fragment [c04_inv_reachable] covers):
+    the step keeps the full well-formedness invariant, in particular canonicity. *)
+Theorem c18_canonical_after_step : forall (Sst : Type)
     (filter : Sst -> nat -> list tuple -> Sst * (bool * list nat * bool)) sg n U rules
     (x x' : sstate Sst) e offs,
   Forall (fun m => m = MUnionId) sg -> WFs n U (ss_db x) ->
   Forall (fun r => forallb (fun a => match a with AExpr _ | AUnion _ _ => true | _ => false end)
                            (rhead r) = true) rules ->
-  Forall (fun ri => Forall (fun t => canon_tuple (ss_db x) t = true) (ri_res ri)) (ss_infos x) ->
   step Sst filter sg rules x = Ok (x', e, offs) ->
   (exists U', WFs n U' (ss_db x')) /\
   (forall f r i, In r (get_tab (tabs (ss_db x')) f) ->
      (In (VId i) (rargs r) \/ rret r = VId i) -> rep (uf (ss_db x')) i = i).
-Proof. exact canonical_after_step_partial. Qed.
-Print Assumptions c18_canonical_after_step_partial.
+Proof. exact canonical_after_step. Qed.
+Print Assumptions c18_canonical_after_step.
 
-(** non-vacuity of the partial theorem: a reachable state, a held-back (still canonical) match in
-    the side vector, and a step that applies it and changes the database *)
-Example c18_partial_nonvacuous :
+(** Every tuple any scheduler is offered holds only canonical ids (for every signature and rule
+    set): matches are applied "modulo the equalities that hold when they are finally applied". *)
+Theorem c18_offered_is_canonical : forall (Sst : Type)
+    (filter : Sst -> nat -> list tuple -> Sst * (bool * list nat * bool)) sg n U rules
+    (x x' : sstate Sst) e offs,
+  WFs n U (ss_db x) -> step Sst filter sg rules x = Ok (x', e, offs) ->
+  Forall (Forall (fun t => canon_tuple (ss_db x) t = true)) offs.
+Proof. exact offered_is_canonical. Qed.
+Print Assumptions c18_offered_is_canonical.
+
+(** The former counterexample F7 (fixed in /repo by c01cd3e), now a regression example: program
+    (datatype N (A) (B) (G N)) (relation Seen (N)) (rule ((= x (G y))) ((Seen y))) (A) (G (B)),
+    a scheduler that chooses nothing at its first call and everything afterwards, one step, then
+    (union (A) (B)), then one more step: the match kept with B's displaced id is offered with the
+    representative, the database is canonical and (Seen (A)) holds. *)
+Example c18_f7_scenario_now_canonical :
+  exists x1 o1 s1 x2,
+    step nat f7_filter f7_sg f7_rules f7_x0 = Ok (x1, None, o1) /\
+    ri_res (nth 0 (ss_infos x1) info0) = [[Some (VId 1)]] /\
+    exec f7_sg (ss_db x1) (CUnion (T 0 []) (T 1 [])) = Ok s1 /\
+    step nat f7_filter f7_sg f7_rules (mkSS s1 (ss_infos x1) (ss_sched x1))
+      = Ok (x2, None, [[[Some (VId 0)]]]) /\
+    canonical (ss_db x2) /\
+    eval (ss_db x2) (T 3 [T 0 []]) = Some (VInt 0) /\
+    eval (ss_db x2) (T 3 [T 1 []]) = Some (VInt 0).
+Proof. exact f7_scenario_now_canonical. Qed.
+
+(** non-vacuity of [c18_canonical_after_step]: a reachable state, a match held back across a
+    union that displaces one of its ids, and a step that applies it and changes the database *)
+Example c18_canonical_nonvacuous :
   let sg := [MUnionId; MUnionId; MUnionId] in
   let rules := [mkRule [FEq 0 (PApp 2 [PVar 1])] [AUnion (PVar 0) (PVar 1)]] in
-  exists s0 x1 x2 o2,
+  exists s0 x1 s1 x2,
     run sg (init 3) [CAdd (T 0 []); CAdd (T 2 [T 1 []])] = Ok s0 /\
     step nat f7_filter sg rules (mkSS s0 [] 0) = Ok (x1, None, [[[Some (VId 2); Some (VId 1)]]]) /\
-    ss_db x1 = s0 /\ ri_res (nth 0 (ss_infos x1) info0) = [[Some (VId 2); Some (VId 1)]] /\
-    Forall (fun ri => Forall (fun t => canon_tuple (ss_db x1) t = true) (ri_res ri)) (ss_infos x1) /\
-    step nat f7_filter sg rules x1 = Ok (x2, None, o2) /\
-    uf (ss_db x2) = [0; 1; 1] /\ uf s0 = [0; 1; 2].
+    ri_res (nth 0 (ss_infos x1) info0) = [[Some (VId 2); Some (VId 1)]] /\
+    run sg (init 3) [CAdd (T 0 []); CAdd (T 2 [T 1 []]); CUnion (T 0 []) (T 1 [])] = Ok s1 /\
+    step nat f7_filter sg rules (mkSS s1 (ss_infos x1) (ss_sched x1))
+      = Ok (x2, None, [[[Some (VId 2); Some (VId 0)]]]) /\
+    uf s1 = [0; 0; 2] /\ uf (ss_db x2) = [0; 0; 0].
 Proof.
   cbv zeta. do 4 eexists.
   split; [vm_compute; reflexivity|].
   split; [vm_compute; reflexivity|].
-  split; [reflexivity|]. split; [reflexivity|].
-  split; [repeat constructor|].
-  split; vm_compute; [reflexivity|split; reflexivity].
+  split; [reflexivity|].
+  split; [vm_compute; reflexivity|].
+  split; [vm_compute; reflexivity|].
+  split; vm_compute; reflexivity.
 Qed.
